@@ -7,7 +7,7 @@
    any number of re-downloads of the same object after it was read out (BlobBuffer) or deleted.
    [core_ops] = no Read/Delete in the list; [no_delete] = no Delete in the list. *)
 From Coq Require Import NArith ZArith List Bool.
-From LV Require Import Lib.Bytes Model.C01 Proofs.C01.
+From LV Require Import Lib.Bytes Model.C01 Proofs.C01 Model.C01Announce Proofs.C01Announce.
 Import ListNotations.
 Local Open Scope N_scope.
 
@@ -191,6 +191,29 @@ Theorem C01_length_inside_accepted : forall n s,
 Proof. exact (set_length_accepted (fun b => b) nil). Qed.
 Print Assumptions C01_length_inside_accepted.
 
+(* 6. "... announced only if ...".  The blob table and get_blobs_to_announce (Model/C01Announce.v), for every list
+      of table operations (add_blobs pending/finished, set_announce, single announce, update_last_announced,
+      downgrade to pending, delete), both settings of announce_head_and_sd_only and every clock value: a hash is
+      handed to the announcer only if add_blobs(..., finished=True) was called for it - which only
+      BlobManager.blob_completed does, for a BlobFile, i.e. the completion callback of theorems 1 and 4 (so the blob
+      is verified and stores bytes of the announced length hashing to its name). *)
+Theorem C01_announced_only_if_completed : forall ops head_and_sd_only now h,
+  In h (to_announce head_and_sd_only now (arun ops [])) -> In h (completed_of ops).
+Proof. exact announce_only_completed. Qed.
+Print Assumptions C01_announced_only_if_completed.
+
+(* 6b. A blob whose row is pending (only known from a stream descriptor, or its download failed) is not handed
+       out, under either setting; and the head-and-sd-only list is contained in the announce-everything list. *)
+Theorem C01_pending_never_announced : forall head_and_sd_only now t h,
+  (forall r, In r t -> r_hash r = h -> is_fin r = false) -> ~ In h (to_announce head_and_sd_only now t).
+Proof. exact pending_not_announced. Qed.
+Print Assumptions C01_pending_never_announced.
+
+Theorem C01_announce_head_only_subset : forall now t h,
+  In h (to_announce true now t) -> In h (to_announce false now t).
+Proof. exact head_only_subset. Qed.
+Print Assumptions C01_announce_head_only_subset.
+
 (* ---- non-vacuity: concrete histories (toy hash: H b = b, so the blob named [1;2;3] is the bytes 1 2 3) ---- *)
 Definition Hid (b : bytes) : bytes := b.
 Definition nm : bytes := [Byte.x01; Byte.x02; Byte.x03].
@@ -236,6 +259,14 @@ Proof. vm_compute. reflexivity. Qed.
 Example C01_ex_restart_intact :
   let s0 := start KFile (Some nm) (Some 3) in
   (s_verified s0, s_store s0, s_len s0, snd (step Hid nm KFile true (Open 1) s0)) = (true, Some nm, Some 3, ROSError).
+Proof. vm_compute. reflexivity. Qed.
+
+(* three blobs known from a descriptor (pending); blob 3 is completed, blob 1 got a corrupted copy, blob 2 a
+   truncated one: only 3 is handed to the announcer when everything is announced, nothing under head-and-sd-only
+   until 3 is flagged *)
+Example C01_ex_announce :
+  let t := arun [AAdd 1 false; AAdd 2 false; AAdd 3 false; AAdd 3 true] [] in
+  (to_announce false 1000 t, to_announce true 1000 t, to_announce true 1000 (arun [AShould 3; AShould 1] t)) = ([3], [], [3]).
 Proof. vm_compute. reflexivity. Qed.
 
 (* over-long by one byte: InvalidDataError, nothing stored, nothing verified *)
